@@ -346,10 +346,20 @@ func c13scenarios(quick bool) []c13scenario {
 					continue // whole-module printers only (about 230 lock operations per thread)
 				}
 				sc := c13scenario{Name: fmt.Sprintf("%s/%s||%s", md.name, bi.name, bj.name), Mod: mi, Bodies: []int{i, j}, Bound: -1}
-				if i <= 1 && j <= 1 && md.name != "P2-parsed-named" && quick {
-					// two whole-module printers: all interleavings in thorough (48620 each),
-					// preemption bound 3 in quick; P2 keeps the unbounded exploration in quick.
-					sc.Bound = 3
+				if i <= 1 && j <= 1 {
+					// two whole-module printers (each locks every function twice: once when
+					// WriteTo numbers all functions, once when the function is printed):
+					// preemption bound 3 in quick; in thorough all interleavings for the
+					// one-function module P2 (48620) and preemption bound 5 for the others.
+					switch {
+					case quick:
+						sc.Bound = 3
+					case md.name == "P2-parsed-named":
+						sc.Shards = 8
+					default:
+						sc.Bound = 5
+						sc.Shards = 8
+					}
 				}
 				sc.MaxExec = 400000
 				if quick {
